@@ -244,6 +244,26 @@ func main() {
 	sort.Strings(patterns)
 	tLoad := time.Now()
 	prog, err := sx.Load(*repo, patterns, overlay, "")
+	// A harness file that no longer compiles against the tree (it names an unexported function
+	// or field that a change renamed or re-shaped) is set aside — its harnesses are reported
+	// inconclusive — and the remaining files are loaded again, so that the other harnesses of
+	// the property still decide what they can.
+	droppedFiles := map[string]bool{}
+	for retry := 0; err != nil && retry < 6; retry++ {
+		dropped := false
+		for name := range overlay {
+			base := filepath.Base(name)
+			if strings.HasPrefix(base, "zz_verif_c") && strings.Contains(err.Error(), base) && !droppedFiles[name] {
+				droppedFiles[name] = true
+				delete(overlay, name)
+				dropped = true
+			}
+		}
+		if !dropped {
+			break
+		}
+		prog, err = sx.Load(*repo, patterns, overlay, "")
+	}
 	if err != nil {
 		fatal(id, "cannot load /repo with harness overlay (does the tree compile?): "+err.Error())
 	}
@@ -256,6 +276,15 @@ func main() {
 			fatal(id, err.Error())
 		}
 		defer native.Close()
+		native.Skip = map[string]bool{}
+		for name := range droppedFiles {
+			if rel, rerr := filepath.Rel(*repo, name); rerr == nil {
+				native.Skip[rel] = true
+			}
+		}
+	}
+	for name := range droppedFiles {
+		fmt.Printf("NOTE harness file %s no longer compiles against this tree: its harnesses are inconclusive, the others run\n", filepath.Base(name))
 	}
 
 	if *concrete != "" {
